@@ -104,6 +104,13 @@ func (d *ExpoDom) Call(in *Interp, site ssa.Instruction, fn *ssa.Function, args 
 	case "field.(*Element).Square":
 		a := get(1)
 		return put(monoMul(a, a)), true
+	case "field.feMul", "field.feMulGeneric":
+		in.Store(site, args[0], monoMul(get(1), get(2)))
+		return nil, true
+	case "field.feSquare", "field.feSquareGeneric":
+		a := get(1)
+		in.Store(site, args[0], monoMul(a, a))
+		return nil, true
 	case "field.(*Element).Set", "(*Scalar).Set":
 		return put(get(1)), true
 	}
